@@ -62,9 +62,9 @@ def run(pid, tier, seed, njobs=None):
     verdict = lib.Verdict(pid)
     rng = random.Random(seed)
     n = njobs or (800 if tier == "quick" else 10000)
-    jobs = make_jobs(rng, n, pid.lower())
+    jobs = lib.scenario_jobs(pid, rec=["mem"]) + make_jobs(rng, n, pid.lower())
     bjobs = bulk_jobs(rng, tier)
-    res = lib.run_jobs(jobs + bjobs, pid.lower(), procs=8, timeout=1200)
+    res = lib.run_jobs(jobs + bjobs, pid.lower(), procs=8, timeout=1800)
     projected, byid, outcomes = [], {}, {}
     nret = nfree = 0
     for job, trace, crash in res:
